@@ -160,7 +160,7 @@ class IDStat:
         The `name` attribute of the returned series is set using the `name` property.
 
         """
-        return pd.Series(self._val, name=self.name)
+        return pd.Series(self.asdict(), name=self.name)
 
     def ashist(self, bins=10, bin_edges=False, density=False, log_binning=False):
         """Return the distribution of a numpy array.
@@ -531,7 +531,7 @@ class MultiIDStat(IDStat):
         5       2    1.000000
 
         """
-        result = {s.name: s._val for s in self.stats}
+        result = {s.name: s.asdict() for s in self.stats}
         series = [pd.Series(v, name=k) for k, v in result.items()]
         return pd.concat(series, axis=1)
 
